@@ -168,3 +168,194 @@ fn c06_q_spsc_stream_rearms() {
   }
   kani::cover!(via_future, "item taken through a recv future");
 }
+
+// ---------------------------------------------------------------- async forms of C01 / C03 / C04 / C09
+
+/// C01/C02/C03 (async send_batch): `pre` values already buffered (cap 2), a batch of two is sent through
+/// the future; the receiver drains; every value arrives exactly once, in order, the future completes with
+/// Ok(2) only after everything was admitted, and it is woken whenever it was Pending and space appeared.
+#[kani::proof]
+#[kani::unwind(5)]
+fn c01_t_spsc_async_send_batch() {
+  with_pick(2, |pre| {
+    let (mut tx, mut rx) = spsc::bounded_async::<u8>(2);
+    let mut i = 0u8;
+    while (i as u32) < pre {
+      assert!(tx.try_send(i).is_ok(), "C03: prefill failed");
+      i += 1;
+    }
+    let mut f = Some(tx.send_batch(vec![10, 11]));
+    let mut done = false;
+    let mut expect: u8 = 0; // next expected value index in the sequence 0..pre, 10, 11
+    let mut rounds = 0;
+    while rounds < 4 {
+      if !done {
+        let w0 = wakes(0);
+        match poll_slot(&mut f, 0) {
+          Poll::Ready(Ok(n)) => {
+            assert!(n == 2, "C01: send_batch reported a wrong count");
+            done = true;
+          }
+          Poll::Ready(Err(_)) => assert!(false, "C04: send_batch failed although the receiver is alive"),
+          Poll::Pending => {
+            assert!(pre > 0, "C03: send_batch pending although the whole batch fits");
+            assert!(rx.len() == 2, "C03: send_batch pending although there is room");
+          }
+        }
+        let _ = w0;
+      }
+      let before = wakes(0);
+      match rx.try_recv() {
+        Ok(v) => {
+          let want = if (expect as u32) < pre { expect } else { 10 + (expect - pre as u8) };
+          assert!(v == want, "C02: batch / FIFO order violated");
+          expect += 1;
+          if !done {
+            assert!(wakes(0) > before, "C06: pending send_batch not woken when space appeared");
+          }
+        }
+        Err(_) => {}
+      }
+      rounds += 1;
+    }
+    assert!(done, "C05: send_batch never completed although the receiver kept draining");
+    f = None;
+    // whatever is left arrives too
+    while let Ok(v) = rx.try_recv() {
+      let want = if (expect as u32) < pre { expect } else { 10 + (expect - pre as u8) };
+      assert!(v == want, "C02: batch / FIFO order violated");
+      expect += 1;
+    }
+    assert!(expect as u32 == pre + 2, "C01: a value of a completed batch was lost or duplicated");
+    kani::cover!(pre == 2, "batch sent into a full channel");
+  });
+}
+
+/// C01 (async send_batch_mut, cancel safety): the future is polled once and dropped; the caller's Vec
+/// keeps exactly the unsent tail, the delivered part is the prefix, nothing is lost or duplicated.
+#[kani::proof]
+#[kani::unwind(5)]
+fn c01_q_spsc_async_send_batch_mut_cancel() {
+  with_pick(2, |pre| {
+    let (mut tx, mut rx) = spsc::bounded_async::<u8>(2);
+    let mut i = 0u8;
+    while (i as u32) < pre {
+      assert!(tx.try_send(i).is_ok(), "C03: prefill failed");
+      i += 1;
+    }
+    let mut items = vec![10u8, 11];
+    let r = {
+      let mut f = Some(tx.send_batch_mut(&mut items));
+      let r = poll_slot(&mut f, 0);
+      f = None; // cancelled (or completed)
+      r
+    };
+    let left = items.len();
+    assert!(left <= 2, "C01: in-place batch grew");
+    match r {
+      Poll::Ready(Ok(n)) => assert!(n == 2 && left == 0, "C01: send_batch_mut Ok but items remain"),
+      Poll::Ready(Err(_)) => assert!(false, "C04: send_batch_mut failed although the receiver is alive"),
+      Poll::Pending => assert!(left > 0, "C01: send_batch_mut pending with nothing left to send"),
+    }
+    assert!((2 - left) as u32 == 2 - pre, "C03: in-place batch admitted a wrong number of values");
+    if left == 1 {
+      assert!(items[0] == 11, "C01: unsent tail is not the input suffix");
+    }
+    if left == 2 {
+      assert!(items[0] == 10 && items[1] == 11, "C01: unsent tail is not the input suffix");
+    }
+    // delivered = prefill then the sent prefix
+    let mut n = 0u32;
+    while let Ok(v) = rx.try_recv() {
+      let want = if n < pre { n as u8 } else { 10 + (n - pre) as u8 };
+      assert!(v == want, "C02: order violated");
+      n += 1;
+    }
+    assert!(n == pre + (2 - left as u32), "C01: delivered count differs from what was reported sent");
+    kani::cover!(left == 1, "cancelled with one item unsent");
+  });
+}
+
+/// C04/C06 (async): a pending send / send_batch is woken when the receiver goes away and reports Closed,
+/// handing the unsent values back.
+#[kani::proof]
+#[kani::unwind(5)]
+fn c04_q_spsc_async_pending_send_rx_gone() {
+  let (mut tx, rx) = spsc::bounded_async::<u8>(1);
+  assert!(tx.try_send(1).is_ok(), "C03: prefill failed");
+  let batch: bool = kani::any();
+  let close: bool = kani::any();
+  if batch {
+    let mut f = Some(tx.send_batch(vec![10, 11]));
+    assert!(poll_slot(&mut f, 0).is_pending(), "C03: send_batch completed on a full channel");
+    if close { let _ = rx.close(); } else { drop(rx); }
+    assert!(wakes(0) >= 1, "C06: pending send_batch not woken when the receiver went away");
+    match poll_slot(&mut f, 0) {
+      Poll::Ready(Err(e)) => {
+        assert!(e.sent == 0 && e.unsent.len() == 2 && e.unsent[0] == 10 && e.unsent[1] == 11, "C01: Closed batch error does not hand the values back in order");
+      }
+      _ => assert!(false, "C04: send_batch did not report Closed after the receiver went away"),
+    }
+    std::mem::forget(f);
+  } else {
+    let mut f = Some(tx.send(2));
+    assert!(poll_slot(&mut f, 0).is_pending(), "C03: send completed on a full channel");
+    if close { let _ = rx.close(); } else { drop(rx); }
+    assert!(wakes(0) >= 1, "C06: pending send not woken when the receiver went away");
+    match poll_slot(&mut f, 0) {
+      Poll::Ready(Err(_)) => {}
+      _ => assert!(false, "C04: send did not report Closed after the receiver went away"),
+    }
+    std::mem::forget(f);
+  }
+  kani::cover!(batch && close, "batch, receiver closed");
+  kani::cover!(!batch && !close, "single, receiver dropped");
+}
+
+/// C09 (async): values inside cancelled futures and values left in the ring are dropped exactly once.
+#[kani::proof]
+#[kani::unwind(5)]
+fn c09_q_spsc_async_cancel_drops() {
+  let (mut tx, mut rx) = spsc::bounded_async::<Tag>(1);
+  assert!(tx.try_send(Tag(0)).is_ok(), "C03: prefill failed");
+  let sc: u8 = kani::any();
+  kani::assume(sc < 3);
+  if sc == 0 {
+    // pending single send cancelled
+    let mut f = Some(tx.send(Tag(1)));
+    assert!(poll_slot(&mut f, 0).is_pending(), "C03: send completed on a full channel");
+    f = None;
+    assert!(drops(1) == 1, "C09: value of a cancelled send not dropped exactly once");
+  } else if sc == 1 {
+    // pending batch: one value admitted after a receive, the other still inside the future when cancelled
+    let mut f = Some(tx.send_batch(vec![Tag(1), Tag(2)]));
+    assert!(poll_slot(&mut f, 0).is_pending(), "C03: send_batch completed on a full channel");
+    let v = rx.try_recv();
+    assert!(v.is_ok(), "C01: buffered value not delivered");
+    drop(v);
+    assert!(drops(0) == 1, "C09: received value not dropped exactly once");
+    assert!(poll_slot(&mut f, 0).is_pending(), "C03: send_batch completed although one value does not fit");
+    f = None;
+    assert!(drops(2) == 1, "C09: unsent value of a cancelled batch not dropped exactly once");
+    assert!(drops(1) == 0, "C09: admitted value dropped while still buffered");
+  } else {
+    // pending recv on the other side cancelled: nothing consumed
+    let v = rx.try_recv();
+    drop(v);
+    let mut g = Some(rx.recv());
+    assert!(poll_slot(&mut g, 1).is_pending(), "C06: recv ready on an empty channel");
+    g = None;
+    assert!(tx.try_send(Tag(1)).is_ok(), "C03: try_send failed");
+  }
+  let tx_first: bool = kani::any();
+  if tx_first {
+    drop(tx);
+    drop(rx);
+  } else {
+    drop(rx);
+    drop(tx);
+  }
+  assert!(drops(0) == 1, "C09: value 0 not dropped exactly once");
+  assert!(drops(1) == 1, "C09: value 1 not dropped exactly once");
+  kani::cover!(sc == 1, "batch cancelled half way");
+}
